@@ -146,9 +146,13 @@ func (t *agentTap) opened(pr *process.Process, key string, attach func(in, out p
 		return
 	}
 	t.log(fmt.Sprintf("accept %d", pi))
-	if first {
-		pr.AddExitHook(process.ExitFunc(func(error) { t.log(fmt.Sprintf("hook %d", pi)) }))
-	}
+	// A marker at EVERY open (not only the first): when the process has already terminated – an
+	// Open that passed its status check just before the exit – the agent's accept registers the
+	// process and its exit hook runs at once; the marker, registered just before, does the same and
+	// logs the `hook p` that belongs to this late `accept p`. Extra `hook p` lines are no-ops in the
+	// model (nothing owed), and only key sets at rest are compared.
+	_ = first
+	pr.AddExitHook(process.ExitFunc(func(error) { t.log(fmt.Sprintf("hook %d", pi)) }))
 	attach(packet.HookFunc(func(p *packet.Packet) { t.packet(key, true, pi, p) }),
 		packet.HookFunc(func(p *packet.Packet) { t.packet(key, false, pi, p) }))
 }
